@@ -11,6 +11,7 @@ import numpy as np
 from EasyFEA import Mesh, Simulations, Models, AlgoType
 from EasyFEA.FEM import LagrangeCondition
 
+from . import _suite
 from ..core import Ctx, quiet, relerr
 from ..gen import meshes as gm
 from ..monitors.assembly import AssemblyMonitor, _cache_size
@@ -80,6 +81,9 @@ def cases(tier: str, seed: int) -> list[dict]:
     for i, c in enumerate(out):
         c["id"] = f"C03-{i:05d}-{c['case']}-{c.get('kind', 'probe')}-{c['et']}"
         c["index"] = i
+    for c in _suite.suite_cases(PROP, tier):
+        c["index"] = len(out)
+        out.append(c)
     return out
 
 
@@ -98,6 +102,8 @@ def _report(ctx: Ctx, mon: AssemblyMonitor, key: str, start: int = 0):
 
 
 def run_case(case: dict, ctx: Ctx) -> None:
+    if case.get("fam") == "suite":
+        return _suite.run_suite(case, ctx, PROP)
     rng = np.random.default_rng([case["seed"], NUM, case["index"]])
     {"real": run_real, "probe": run_probe, "renumber": run_renumber, "large": run_large}[case["case"]](case, ctx, rng)
 
